@@ -422,6 +422,7 @@ RemoveChecks(m, e) ==
 TriggerChecks(m, e) ==
   IF e.res = "panic" THEN << <<"C14", "sender-panic", FALSE, <<"trigger", e.o>> >> >> ELSE
   << <<"C12", "trigger-result-wrong", (e.res = "true") = (e.o \in m.live), <<e.o, e.res>> >> >>
+  \o (IF Has(e, "st") THEN ProjChecks(m, e.st) ELSE <<>>)      \* a trigger changes neither the objects nor their counters
 StepTrigger(m, e) ==
   IF e.res # "true" \/ e.o \in m.inx THEN m
   ELSE [m EXCEPT !.lastEnd[e.o] = -1, !.lastStart[e.o] = -1,
